@@ -164,6 +164,8 @@ type recorder struct {
 	freshLo      uint32
 	fresh        uint32
 	used         map[uint32]bool
+	// freshInWindow: the sequences after the history's highest one are still inside its ordering window
+	freshInWindow bool
 }
 
 const nestedIDBase = 1 << 20
@@ -243,7 +245,24 @@ func (r *recorder) ReassemblyComplete(msgs []*auparse.AuditMessage) {
 	}
 }
 
-func (r *recorder) EventsLost(n int) { r.cur.CBs = append(r.cur.CBs, CB{Lost: n}) }
+func (r *recorder) EventsLost(n int) {
+	r.cur.CBs = append(r.cur.CBs, CB{Lost: n})
+	// "lostpushdone": from inside EventsLost the Stream pushes a record that completes its event at once, with a
+	// sequence after every other one of the history (a reader that notes the gap and goes on reading): by then the
+	// events of the call that reported the gap have all been handed over.
+	if r.reenter != "lostpushdone" || r.depth > 0 || r.r == nil || r.nested >= 4 || !r.freshInWindow {
+		return
+	}
+	r.depth++
+	defer func() { r.depth-- }()
+	id := nestedIDBase + r.nested
+	r.nested++
+	r.fresh++
+	m := &auparse.AuditMessage{RecordType: 1100, Sequence: r.freshLo + r.fresh, RawData: "nested" + strconv.Itoa(id)}
+	r.byPtr[m] = id
+	r.cur.CBs = append(r.cur.CBs, CB{NestedPush: true, PushID: id, PushSeq: m.Sequence, PushTyp: 1100})
+	r.r.PushMessage(m)
+}
 
 var badRaw = []string{
 	"", "audit", "audit(", "audit(123", "audit(123.456", "audit(123.456:", "audit(123.456:7",
@@ -310,6 +329,10 @@ func exec(h History) *Trace {
 		rec.freshLo = 0x40000000
 	}
 	rec.used = seen
+	if h.Reenter == "lostpushdone" {
+		rec.freshLo = h.Base + hi
+		rec.freshInWindow = !h.Windowed || hi+16 < 1<<24-1
+	}
 	for i, o := range h.Ops {
 		st := &tr.Steps[i]
 		rec.cur, rec.stepN = st, i
